@@ -193,6 +193,10 @@ def _content(a):
 
 
 def fp_tensor(t):
+    if isinstance(t, tc.PTensor):
+        # parametrised tensor: the shared array is the parameter array; the value is generated lazily
+        return {"kind": "T", "struct": (type(t).__name__, t.inds, tuple(t.tags), t.left_inds, tuple(t.shape)),
+                "arr": t.params, "content": _content(t.params), "value": _content(t.data)}
     return {"kind": "T", "struct": (type(t).__name__, t.inds, tuple(t.tags), t.left_inds, tuple(t.shape), str(t.dtype)),
             "arr": t.data, "content": _content(t.data)}
 
@@ -263,6 +267,8 @@ def _check_arr(hx, label, x, fp, now):
             hx.same(f"{label}: array shape", old_arr.shape, old.shape)
     else:
         hx.same(f"{label}: array bytes", be, True)
+    if "value" in fp:
+        hx.eq(f"{label}: generated value", now["value"], fp["value"])
 
 
 # ======================================================================================
@@ -274,23 +280,32 @@ def _is_rand(name):
     return isinstance(name, str) and ("_" + tc._RAND_PREFIX) in name
 
 
-def _canon_names(objs, known):
-    """map every randomly generated label (rand_uuid) that is not in `known` to '#k' by order of
-    first appearance"""
+def _canon_names(o, known):
+    """-> (map, ambiguous).  Every randomly generated label (rand_uuid) of `o` that is not in `known`
+    is renamed canonically: in a network by the positions of the tensors it joins (independent of
+    stored axis order), on a tensor by order of appearance.  ambiguous: two random labels join the
+    same tensors (their numbering then follows the order of appearance)."""
     m = {}
-
-    def visit(t):
-        for i in t.inds:
+    amb = False
+    if isinstance(o, tc.TensorNetwork):
+        occ = {}
+        for pos, t in enumerate(o.tensor_map.values()):
+            for i in t.inds:
+                if _is_rand(i) and i not in known:
+                    occ.setdefault(i, []).append(pos)
+        seen = {}
+        for i, ps in occ.items():
+            key = "#" + ".".join(map(str, ps))
+            n = seen.get(key, 0)
+            seen[key] = n + 1
+            m[i] = key if n == 0 else f"{key}~{n}"
+            amb = amb or n > 0
+    elif isinstance(o, tc.Tensor):
+        for i in o.inds:
             if _is_rand(i) and i not in known and i not in m:
-                m[i] = f"#{len(m)}"
-
-    for o in objs:
-        if isinstance(o, tc.TensorNetwork):
-            for t in o.tensor_map.values():
-                visit(t)
-        elif isinstance(o, tc.Tensor):
-            visit(o)
-    return m
+                m[i] = f"#t{len(m)}"
+        amb = len(m) > 1
+    return m, amb
 
 
 def _flatten_result(r):
@@ -349,7 +364,7 @@ def _compare1(hx, label, a, b, mode, known, data=True):
             hx.eq(f"{label}: value (scalar vs object)", va, vb)
         return
     oa, ob = _outer(a), _outer(b)
-    ma, mb = _canon_names([a], known), _canon_names([b], known)
+    (ma, amb_a), (mb, amb_b) = _canon_names(a, known), _canon_names(b, known)
     ca = tuple(sorted(ma.get(i, i) for i in oa))
     cb = tuple(sorted(mb.get(i, i) for i in ob))
     hx.same(f"{label}: outer labels", ca, cb)
@@ -391,17 +406,21 @@ def _compare1(hx, label, a, b, mode, known, data=True):
                     hx.same(f"{label}: tensor#{k} known labels / tags / dims",
                             (sorted(i for i in ta.inds if i not in ma), sorted(ta.tags), sorted(ta.shape)),
                             (sorted(i for i in tb.inds if i not in mb), sorted(tb.tags), sorted(tb.shape)))
-                    hx.same(f"{label}: tensor#{k} left_inds compatible",
-                            _li_compatible(ta.left_inds and [i for i in ta.left_inds if i not in ma],
-                                           tb.left_inds and [i for i in tb.left_inds if i not in mb]), True)
+                    if mode == "labelled":
+                        hx.same(f"{label}: tensor#{k} left_inds compatible",
+                                _li_compatible(ta.left_inds and [i for i in ta.left_inds if i not in ma],
+                                               tb.left_inds and [i for i in tb.left_inds if i not in mb]), True)
         if mode == "exact" and not hx.want_dense:
             return
-        if mode == "labelled" and data and not ma and not mb and a.num_tensors == b.num_tensors and all(
-                set(ta.inds) == set(tb.inds) and len(set(ta.inds)) == ta.ndim == tb.ndim
+        cn_a = lambda t: tuple(ma.get(i, i) for i in t.inds)
+        cn_b = lambda t: tuple(mb.get(i, i) for i in t.inds)
+        if mode == "labelled" and data and not amb_a and not amb_b and a.num_tensors == b.num_tensors and all(
+                set(cn_a(ta)) == set(cn_b(tb)) and len(set(ta.inds)) == ta.ndim == tb.ndim
                 for ta, tb in zip(a.tensor_map.values(), b.tensor_map.values())):
             # same labels tensor by tensor: compare the arrays aligned by label (implies the dense value)
             for k, (ta, tb) in enumerate(zip(a.tensor_map.values(), b.tensor_map.values())):
-                perm = tuple(tb.inds.index(i) for i in ta.inds)
+                ia, ib = cn_a(ta), cn_b(tb)
+                perm = tuple(ib.index(i) for i in ia)
                 hx.eq(f"{label}: tensor#{k} array aligned by label", ta.data, np.transpose(tb.data, perm))
             hx.eq(f"{label}: exponent", np.asarray(a.exponent), np.asarray(b.exponent))
             return
@@ -416,6 +435,10 @@ def _compare1(hx, label, a, b, mode, known, data=True):
 
 def permute_tensor(t, perm):
     perm = tuple(perm)
+    if isinstance(t, tc.PTensor):
+        fn0 = t.fn
+        return tc.PTensor(lambda p, fn0=fn0: np.transpose(fn0(p), perm), t.params, tuple(t.inds[q] for q in perm), t.tags,
+                          left_inds=t.left_inds)
     data = np.transpose(t.data, perm).copy()
     return t.__class__(data, tuple(t.inds[p] for p in perm), t.tags, left_inds=t.left_inds)
 
@@ -499,6 +522,13 @@ def R_T422(hx):
     """rank-3 Tensor dims (4,2,2): grouping (b,c) gives a square matrix"""
     return tc.Tensor(hx.arr("T", (4, 2, 2)), ("a", "b", "c"), tags=["T", "X"], left_inds=("a",))
 
+
+def R_PT(hx):
+    """parametrised rank-3 tensor: data = reshape(params) * (1 + i)"""
+    return tc.PTensor(lambda p: np.reshape(p, (2, 2, 3)) * (1 + 1j), hx.arr("p", (12,)), ("a", "b", "c"), tags=["T", "X"], left_inds=("a",))
+
+
+RECEIVERS["PT"] = R_PT
 
 for _n, _f in (("T3", R_T3), ("T3sq", R_T3sq), ("T1", R_T1), ("Trep", R_Trep), ("T422", R_T422)):
     RECEIVERS[_n] = _f
@@ -602,6 +632,7 @@ case("Tensor", "astype", "T3", A("complex64"), sym=False, kind="real", why="dtyp
 case("Tensor", "astype", "T3", A("complex128"), sym=False, kind="cplx", tag="same", why="dtype cast of an object array")
 case("Tensor", "to", "T3", A(dtype="complex64"), sym=False, why="dtype cast of an object array")
 case("Tensor", "to", "T3", A("numpy"), sym=False, tag="backend", why="backend conversion")
+case("PTensor", "conj", "PT")
 
 
 
@@ -718,19 +749,21 @@ case("TensorNetwork", "gate_sandwich_inds", "TN3", lambda hx, x: ((hx.arr("G", (
 case("TensorNetwork", "gate_sandwich_inds", "TN3", lambda hx, x: ((hx.arr("G", (2, 2)), ("j",), ("l",)), {"contract": True}), tag="contract")
 
 
+_W0 = "certificate search too slow symbolically (several chained QR / SVD contracts): concrete run"
 # LAPACK-stub based (real symbols, certificates modulo the stub contracts): the result is gauge
 # dependent, so under axis permutations the goal is "denotes the same dense tensor as the input"
 case("TensorNetwork", "canonize_around", "TNC", A("A"), kind="real", heavy=True, ref="preserve")
-case("TensorNetwork", "canonize_around", "TNC", A("B", max_distance=1, absorb="left"), kind="real", heavy=True, ref="preserve", tag="B,left",
-     tiers=("thorough",))
+case("TensorNetwork", "canonize_around", "TNC", A("B", max_distance=1, absorb="left"), sym=False, tag="B,left", why=_W0)
 case("TensorNetwork", "replace_with_svd", "TNC", A(["A", "B"], ("p",), 0.0, method="svd", ltags=["L"], rtags=["R"]), kind="real", heavy=True,
      ref="preserve")
-case("TensorNetwork", "compress_all", "TNC", A(cutoff=0.0), kind="real", heavy=True, ref="preserve", tiers=("thorough",))
+case("TensorNetwork", "compress_all", "TNC", A(cutoff=0.0), sym=False, tag="chain,cutoff=0", why=_W0)
 case("TensorNetwork", "isometrize", "TNL", kind="real", heavy=True)
 case("TensorNetwork", "equalize_norms", "TNC", kind="real", heavy=True, ref="preserve")
 case("TensorNetwork", "equalize_norms", "TNC", A(1.0), kind="real", heavy=True, ref="preserve", tag="value")
-case("TensorNetwork", "gate_inds", "TN3", lambda hx, x: ((hx.arr("G", (4, 4)), ("j", "l")), {"contract": "split", "cutoff": 0.0}), kind="real",
-     heavy=True, tag="two,split", tiers=("thorough",))
+case("TensorNetwork", "gate_inds", "TN3", lambda hx, x: ((hx.arr("G", (4, 4)), ("j", "l")), {"contract": "split", "cutoff": 0.0}), sym=False,
+     tag="two,split", why=_W0)
+case("TensorNetwork", "gate_inds", "TN3", lambda hx, x: ((hx.arr("G", (4, 4)), ("j", "l")), {"contract": "reduce-split"}), sym=False,
+     tag="two,reduce-split", why=_W0)
 
 # concrete float data (iterative / truncating / value dependent / RNG / dtype)
 _W = "iterative or truncating gauge / compression driver (value dependent control flow)"
@@ -1269,3 +1302,255 @@ def pairs(mk, grp, tier):
         run_case(mk, cs, k, tier)
         if os.environ.get("C03_TIMING"):
             print(f"  C03_TIMING {'sym' if mk.sym else 'num'} {cs.name}: {time.time() - t0:.2f}s", file=sys.stderr, flush=True)
+
+
+# ======================================================================================
+# (iv) binary operators of Tensor / TensorNetwork
+# ======================================================================================
+
+import operator as _op
+
+_SIZES = dict(a=2, b=2, c=3, z=2)
+
+
+def _by_label(fn, terms, out):
+    """elementwise fn over arrays aligned (and broadcast) by label, explicit loops"""
+    shape = tuple(_SIZES[i] for i in out)
+    sym = any(_is_obj(np.asarray(a)) for a, _ in terms)
+    res = np.empty(shape, dtype=object if sym else complex)
+    for idx in np.ndindex(*shape):
+        env = dict(zip(out, idx))
+        res[idx] = fn(*[np.asarray(a)[tuple(env[i] for i in ix)] for a, ix in terms])
+    return res
+
+
+def _mkT(hx, nm, inds, tags, kind=None, perm=None):
+    data = hx.arr(nm, tuple(_SIZES[i] for i in inds), kind)
+    t = tc.Tensor(data, inds, tags=tags)
+    if perm is not None:
+        t = permute_tensor(t, perm)
+    return t
+
+
+def _check_tensor(hx, label, r, want, out, tags):
+    hx.same(f"{label}: returns a Tensor", isinstance(r, tc.Tensor), True)
+    if not isinstance(r, tc.Tensor):
+        return
+    hx.same(f"{label}: label set", sorted(r.inds), sorted(out))
+    hx.same(f"{label}: tags", sorted(r.tags), sorted(tags))
+    if sorted(r.inds) == sorted(out):
+        hx.eq(f"{label}: value aligned by label", np.transpose(r.data, tuple(r.inds.index(i) for i in out)), want)
+
+
+class _Watch:
+    """goal (i) for operator operands"""
+
+    def __init__(self, hx, label, *objs):
+        self.hx, self.label = hx, label
+        self.objs = [(o, o.copy() if isinstance(o, (tc.Tensor, tc.TensorNetwork)) else None) for o in objs]
+        self.fps = [(fp_any(o), fp_any(c) if c is not None else None) for o, c in self.objs]
+
+    def done(self):
+        for k, ((o, c), (fo, fc)) in enumerate(zip(self.objs, self.fps)):
+            check_unchanged(self.hx, f"{self.label}: operand {k}", o, fo)
+            if c is not None:
+                check_unchanged(self.hx, f"{self.label}: earlier copy of operand {k}", c, fc)
+
+
+_OPS = {"+": _op.add, "-": _op.sub, "*": _op.mul, "/": _op.truediv, "**": _op.pow}
+_T1 = ("a", "b", "c")
+_PERMS3 = list(itertools.permutations(range(3)))
+
+
+@obligation(PROP, params=[{"op": o, "tier": "quick", "_tiers": ("quick",)} for o in _OPS] +
+            [{"op": o, "tier": "thorough", "_tiers": ("thorough",)} for o in _OPS])
+def tensor_binary_op(mk, op, tier):
+    """T1 op T2 for tensors with equal label sets in every pair of stored orders, broadcasting by
+    label, scalars on either side: value aligned by label == elementwise reference; operands intact"""
+    mk.encodes(getattr(tc.Tensor, {"+": "__add__", "-": "__sub__", "*": "__mul__", "/": "__truediv__", "**": "__pow__"}[op]),
+               getattr(tc.Tensor, {"+": "__radd__", "-": "__rsub__", "*": "__rmul__", "/": "__rtruediv__", "**": "__rpow__"}[op]))
+    hx = HX(mk, f"{op}: ")
+    fn = _OPS[op]
+    k2 = "pos" if op == "/" else None
+    perms1 = _PERMS3 if tier == "thorough" else _PERMS3[::2] + [_PERMS3[3]]
+    perms2 = _PERMS3 if tier == "thorough" else [_PERMS3[0], _PERMS3[4]]
+    for p1 in perms1:
+        for p2 in perms2:
+            t1 = _mkT(hx, "A", _T1, ["T", "X"], perm=p1)
+            if op == "**":
+                # integer exponents (a symbolic exponent is outside the polynomial engine)
+                e = np.arange(12).reshape(2, 2, 3) % 4
+                t2 = permute_tensor(tc.Tensor(mk.const(e) if hx.symbolic else e.astype(float), _T1, tags=["U"]), p2)
+            else:
+                t2 = _mkT(hx, "B", _T1, ["U"], kind=k2, perm=p2)
+            w = _Watch(hx, f"T1{p1} {op} T2{p2}", t1, t2)
+            r = fn(t1, t2)
+            w.done()
+            a1 = np.transpose(t1.data, tuple(t1.inds.index(i) for i in _T1))
+            a2 = np.transpose(t2.data, tuple(t2.inds.index(i) for i in _T1))
+            _check_tensor(hx, f"T1{p1} {op} T2{p2}", r, _by_label(fn, [(a1, _T1), (a2, _T1)], _T1), _T1, ["T", "X", "U"])
+            hx.same(f"T1{p1} {op} T2{p2}: result keeps the stored order of the left operand", r.inds, t1.inds)
+    # broadcasting by label
+    for p1 in perms1[:3]:
+        t1 = _mkT(hx, "A", _T1, ["T", "X"], perm=p1)
+        a1 = np.transpose(t1.data, tuple(t1.inds.index(i) for i in _T1))
+        if op == "**":
+            small = tc.Tensor((mk.const if hx.symbolic else np.asarray)(np.array([2.0, 3.0])), ("a",), tags=["V"])
+            wide = tc.Tensor((mk.const if hx.symbolic else np.asarray)(np.array([[1.0, 2.0], [3.0, 0.0]])), ("b", "z"), tags=["W"])
+        else:
+            small = _mkT(hx, "C", ("a",), ["V"], kind=k2)
+            wide = _mkT(hx, "D", ("b", "z"), ["W"], kind=k2)
+        w = _Watch(hx, f"T1{p1} {op} small", t1, small)
+        r = fn(t1, small)
+        w.done()
+        _check_tensor(hx, f"T1{p1} {op} small('a')", r, _by_label(fn, [(a1, _T1), (small.data, ("a",))], _T1), _T1, ["T", "X", "V"])
+        out = _T1 + ("z",)
+        w = _Watch(hx, f"T1{p1} {op} wide", t1, wide)
+        r = fn(t1, wide)
+        w.done()
+        _check_tensor(hx, f"T1{p1} {op} wide('b','z')", r, _by_label(fn, [(a1, _T1), (wide.data, ("b", "z"))], out), out, ["T", "X", "W"])
+        if op != "**":
+            t1p = _mkT(hx, "Ap", _T1, ["T", "X"], kind=k2, perm=p1) if op == "/" else t1
+            w = _Watch(hx, f"small {op} T1{p1}", t1p, small)
+            r = fn(small, t1p)
+            w.done()
+            ap = np.transpose(t1p.data, tuple(t1p.inds.index(i) for i in _T1))
+            _check_tensor(hx, f"small('a') {op} T1{p1}", r, _by_label(fn, [(small.data, ("a",)), (ap, _T1)], _T1), _T1, ["T", "X", "V"])
+    # scalars on either side
+    for p1 in perms1[:3]:
+        kind = "pos" if op == "/" else None
+        t1 = _mkT(hx, "Ap" if kind else "A", _T1, ["T", "X"], kind=kind, perm=p1)
+        a1 = np.transpose(t1.data, tuple(t1.inds.index(i) for i in _T1))
+        if op == "**":
+            s_right, s_left = 3, 10
+        else:
+            s_right = s_left = hx.scalar("s", "pos" if op == "/" else "cplx")
+        w = _Watch(hx, f"T1{p1} {op} scalar", t1)
+        r = fn(t1, s_right)
+        w.done()
+        _check_tensor(hx, f"T1{p1} {op} scalar", r, _by_label(lambda v: fn(v, s_right), [(a1, _T1)], _T1), _T1, ["T", "X"])
+        w = _Watch(hx, f"scalar {op} T1{p1}", t1)
+        r = fn(s_left, t1)
+        w.done()
+        _check_tensor(hx, f"scalar {op} T1{p1}", r, _by_label(lambda v: fn(s_left, v), [(a1, _T1)], _T1), _T1, ["T", "X"])
+
+
+@obligation(PROP, params=[{"tier": "quick", "_tiers": ("quick",)}, {"tier": "thorough", "_tiers": ("thorough",)}])
+def tensor_matmul_and_or(mk, tier):
+    """@ (contraction by label), & (copying network), | (viewing network), unary -, and the
+    documented in-place operators *= and /= (which must not write into arrays shared with copies)"""
+    mk.encodes(tc.Tensor.__matmul__, tc.Tensor.__and__, tc.Tensor.__or__, tc.Tensor.__neg__, tc.Tensor.__imul__, tc.Tensor.__itruediv__)
+    hx = HX(mk, "ops: ")
+    perms1 = _PERMS3 if tier == "thorough" else _PERMS3[::2] + [_PERMS3[3]]
+    for p1 in perms1:
+        for p2 in ([_PERMS3[0], _PERMS3[4]] if tier == "quick" else _PERMS3):
+            t1 = _mkT(hx, "A", _T1, ["T", "X"], perm=p1)
+            t2 = _mkT(hx, "B", _T1, ["U"], perm=p2)
+            w = _Watch(hx, f"T1{p1} @ T2{p2}", t1, t2)
+            r = t1 @ t2
+            w.done()
+            hx.eq(f"T1{p1} @ T2{p2} (all labels shared): scalar", np.asarray(r), ref.sum_of_products([(t1.data, t1.inds), (t2.data, t2.inds)], ()))
+            w = _Watch(hx, f"T1{p1} & T2{p2}", t1, t2)
+            tn = t1 & t2
+            tv = t1 | t2
+            w.done()
+            hx.same("&: copies", [t is not t1 and t is not t2 for t in tn], [True, True])
+            hx.same("&: copies share the arrays", [tn.tensor_map[k].data is t.data for k, t in zip(tn.tensor_map, (t1, t2))], [True, True])
+            hx.same("|: views", [a is b for a, b in zip(tv, (t1, t2))], [True, True])
+            for nm, net in (("&", tn), ("|", tv)):
+                hx.same(f"{nm}: labels / tags", [(t.inds, tuple(t.tags)) for t in net], [(t.inds, tuple(t.tags)) for t in (t1, t2)])
+        t1 = _mkT(hx, "A", _T1, ["T", "X"], perm=p1)
+        wide = _mkT(hx, "D", ("b", "z"), ["W"])
+        w = _Watch(hx, f"T1{p1} @ wide", t1, wide)
+        r = t1 @ wide
+        w.done()
+        _check_tensor(hx, f"T1{p1} @ wide('b','z')", r, ref.sum_of_products([(t1.data, t1.inds), (wide.data, wide.inds)], ("a", "c", "z")),
+                      ("a", "c", "z"), ["T", "X", "W"])
+        w = _Watch(hx, f"-T1{p1}", t1)
+        r = -t1
+        w.done()
+        _check_tensor(hx, f"-T1{p1}", r, _by_label(lambda v: -v, [(t1.data, t1.inds)], t1.inds), t1.inds, ["T", "X"])
+        # documented in-place operators: the receiver changes, arrays shared with copies do not
+        for nm in ("*=", "/="):
+            t = _mkT(hx, "A", _T1, ["T", "X"], perm=p1)
+            y = t.copy()
+            fy = fp_any(y)
+            old = t.data
+            s = hx.scalar("s", "pos")
+            if nm == "*=":
+                t *= s
+                want = _by_label(lambda v: v * s, [(old, t.inds)], t.inds)
+            else:
+                t /= s
+                want = _by_label(lambda v: v / s, [(old, t.inds)], t.inds)
+            check_unchanged(hx, f"T1{p1} {nm} s: earlier copy", y, fy)
+            hx.eq(f"T1{p1} {nm} s: value", t.data, want)
+            hx.same(f"T1{p1} {nm} s: labels / tags kept", (t.inds, tuple(t.tags)), (y.inds, tuple(y.tags)))
+
+
+@obligation(PROP)
+def network_operators(mk):
+    """tn * s, s * tn, tn / s, -tn, tn & tn2, tn | tn2, tn @ tn2, tn ^ all, tn >> tags and the
+    in-place forms *=, /=, &=, |=, ^=: value == reference, operands (of the plain forms) and
+    copies (of both forms) intact; same results for permuted stored axes"""
+    mk.encodes(tc.TensorNetwork.__mul__, tc.TensorNetwork.__rmul__, tc.TensorNetwork.__truediv__, tc.TensorNetwork.__neg__,
+               tc.TensorNetwork.__and__, tc.TensorNetwork.__or__, tc.TensorNetwork.__matmul__, tc.TensorNetwork.__xor__,
+               tc.TensorNetwork.__rshift__, tc.TensorNetwork.__imul__, tc.TensorNetwork.__itruediv__, tc.TensorNetwork.__iand__,
+               tc.TensorNetwork.__ior__, tc.TensorNetwork.__ixor__)
+    hx = HX(mk, "tn-ops: ")
+    base = R_TN3(hx)
+    out = ("j", "l")
+    dense0 = ref.tn_dense(base, out)
+    other0 = tc.TensorNetwork([tc.Tensor(hx.arr("Z", (2, 2)), ("l", "j"), tags=["Z"])])
+    s = hx.scalar("s", "pos")
+    results = {}
+    for how in (None, "rev", "roll", "mixed"):
+        x = base if how is None else permute_network(base, how)
+        other = other0 if how is None else permute_network(other0, "rev")
+        tag = f"[{how or 'as built'}] "
+        res = {}
+        for nm, f in (("tn * s", lambda: x * s), ("s * tn", lambda: s * x), ("tn / s", lambda: x / s), ("-tn", lambda: -x),
+                      ("tn & other", lambda: x & other), ("tn | other", lambda: x | other), ("tn @ other", lambda: x @ other),
+                      ("tn ^ all", lambda: x ^ all), ("tn >> [A, B, C]", lambda: x >> ["A", "B", "C"])):
+            w = _Watch(hx, tag + nm, x, other)
+            r = f()
+            w.done()
+            res[nm] = r
+        hx.eq(tag + "tn * s", ref.tn_dense(res["tn * s"], out), dense0 * s)
+        hx.eq(tag + "s * tn", ref.tn_dense(res["s * tn"], out), dense0 * s)
+        hx.eq(tag + "tn / s", ref.tn_dense(res["tn / s"], out), dense0 / s)
+        hx.eq(tag + "-tn", ref.tn_dense(res["-tn"], out), -dense0)
+        both = ref.sum_of_products([(dense0, out), (other0.tensors[0].data, ("l", "j"))], ())
+        for nm in ("tn & other", "tn | other"):
+            hx.same(tag + nm + ": tensors", res[nm].num_tensors, 4)
+            hx.eq(tag + nm + ": value", ref.tn_dense(res[nm], ()), both)
+        hx.same(tag + "tn | other: views", [t is u for t, u in zip(res["tn | other"], list(x) + list(other))], [True] * 4)
+        hx.same(tag + "tn & other: copies", [t is not u for t, u in zip(res["tn & other"], list(x) + list(other))], [True] * 4)
+        hx.eq(tag + "tn @ other", np.asarray(res["tn @ other"]), both)
+        for nm in ("tn ^ all", "tn >> [A, B, C]"):
+            r = res[nm]
+            hx.same(tag + nm + ": labels", sorted(r.inds), sorted(out))
+            hx.eq(tag + nm + ": value", np.transpose(r.data, tuple(r.inds.index(i) for i in out)), dense0)
+        # in-place forms on a copy: the network they were copied from stays intact
+        for nm in ("*=", "/=", "&=", "|=", "^="):
+            z = x.copy()
+            fx = fp_any(x)
+            if nm == "*=":
+                z *= s
+                hx.eq(tag + "tn *= s", ref.tn_dense(z, out), dense0 * s)
+            elif nm == "/=":
+                z /= s
+                hx.eq(tag + "tn /= s", ref.tn_dense(z, out), dense0 / s)
+            elif nm == "&=":
+                w = _Watch(hx, tag + "tn &= other", other)
+                z &= other
+                w.done()
+                hx.eq(tag + "tn &= other", ref.tn_dense(z, ()), both)
+            elif nm == "|=":
+                oc = other.copy()
+                z |= oc
+                hx.eq(tag + "tn |= other", ref.tn_dense(z, ()), both)
+            else:
+                z ^= all
+                hx.eq(tag + "tn ^= all", ref.tn_dense(z, out), dense0)
+            check_unchanged(hx, tag + f"tn {nm}: network the receiver was copied from", x, fx)
